@@ -468,6 +468,13 @@ fn determine_delta_compressability(ints: &[i64]) -> DeltaStats {
         previous_delta = delta;
     }
 
+    // The double-delta encoder and decoder reconstruct the first differences in i64 arithmetic,
+    // so the double-delta layouts are only applicable if all first differences fit in an i64.
+    if min_delta < i64::MIN as i128 || max_delta > i64::MAX as i128 {
+        min_delta_delta = i128::MIN;
+        max_delta_delta = i128::MAX;
+    }
+
     DeltaStats {
         min_delta,
         max_delta,
